@@ -1693,6 +1693,27 @@ func c12LeaderSiblings(p *load.Program, r *oblig.Report) {
 		r.Check(len(lookups) >= 1 && mismatch, rule, construct, p.Pos(fn.Pos()), "b, ok := cluster.Brokers[partition.Leader]; !ok → no leader; b.ID != broker.ID → mismatching leaders", fmt.Sprintf("leader lookups=%d, comparison of the found leader's ID with the chosen broker's ID=%v", len(lookups), mismatch))
 	}
 	r.RequireCount(rule, n, 2)
+	// list-offsets goes to the partition leader as well; its request names one partition (after Split), so there is
+	// nothing to compare, but the leader must exist: the zero value of a missed lookup names broker 0
+	lo := p.Func("protocol/listoffsets", "(*Request).Broker")
+	if lo == nil {
+		r.Lost(rule, "listoffsets.(*Request).Broker")
+		return
+	}
+	nLk, okLk := 0, true
+	an.EachInstr(lo, func(ins ssa.Instruction) {
+		lk, ok := ins.(*ssa.Lookup)
+		if !ok {
+			return
+		}
+		if mt, isMap := lk.X.Type().Underlying().(*types.Map); isMap && an.NamedIs(mt.Elem(), protoPath, "Broker") {
+			nLk++
+			if !lk.CommaOk {
+				okLk = false
+			}
+		}
+	})
+	r.Check(nLk >= 1 && okLk, rule, "protocol/listoffsets.(*Request).Broker → the partition's leader exists (no request is sent to the zero-value broker)", p.Pos(lo.Pos()), "leader, ok := cluster.Brokers[p.Leader]; if !ok { return …, protocol.NewErrNoLeader(topic, partition) }", fmt.Sprintf("lookups=%d all tested=%v", nLk, okLk))
 }
 
 // c12ControllerFromMetadata: the controller the layout names is the one the metadata response names; a layout that
